@@ -5,7 +5,9 @@
    from the property text and independent of the camera code: spec/CameraProto.v.
 
    A session is a list of calls over {open, load_context(description), start_streaming(cap),
-   stop_streaming, close, params access}; a failure plan [pl i j] says whether the j-th fallible
+   stop_streaming, close, params access, bank access (select slot k of a selector-addressed register
+   bank and read it through params_ctxt), and the environment step "the device's bank slot k becomes v"};
+   a description may declare TLParamsLocked with a <pValueCopy> mirror ([x_copy]); a failure plan [pl i j] says whether the j-th fallible
    DeviceControl / PayloadStream operation of call i fails and with a fault of which class ([Some cls]:
    Io, Timeout, Disconnected, Busy, NotOpened, InvalidData, ...; any set of failures, not only one).
    [trace_of (run true pl cs)] is the list of effects on the device, the stream handle and the
@@ -103,7 +105,8 @@ Print Assumptions C16_flag_matches.
 (* Clean close: when no operation fails, every start has cap > 0 (documented precondition) and
    every description that parses defines the three nodes, then after any session followed by
    close: close returns Ok, the loop is stopped, TLParamsLocked = 0, the stream is disabled, the
-   device is not acquiring, both handles are closed and no register value is cached. *)
+   device is not acquiring, both handles are closed and no register value is cached (none of
+   TLParamsLocked, its mirror, AcquisitionStart, AcquisitionStop, and no slot of the bank). *)
 Theorem C16_close_clean : forall pl cs,
   (forall i j, pl i j = None) -> Forall good_call cs ->
   clean (final (run true pl (cs ++ [CClose]))) /\
@@ -128,6 +131,9 @@ Theorem C16_start_without_context_v0 : forall cap s,
 Proof. exact start_without_context_v0. Qed.
 Print Assumptions C16_start_without_context_v0.
 
+(* (The operations are ALL device / stream accesses of the model, including the write of the
+   <pValueCopy> mirror of TLParamsLocked and the bank reads: the statements below quantify over
+   every call, state and effect.) *)
 (* Failure stops the call: in any state, if operation j is the first the plan fails — with a fault of
    ANY class cls (Io, Timeout, Disconnected, Busy, NotOpened, ...) — and the call reaches it, the call
    returns the error of exactly that operation carrying exactly that class, its effects are exactly the
@@ -194,7 +200,8 @@ Theorem C16_start_cap0 : forall plc s c0,
   loop_running s = false -> ctxt s = Some c0 -> n_tl c0 = true -> n_start c0 = true ->
   (forall j, plc j = None) ->
   r_res (run_call true (CStart 0) plc s) = Panic /\
-  r_effs (run_call true (CStart 0) plc s) = [EnableStreaming; SetTLParamsLocked true; AcqStart] /\
+  r_effs (run_call true (CStart 0) plc s) =
+    [EnableStreaming; SetTLParamsLocked true] ++ (if n_copy c0 then [CopyTL true] else []) ++ [AcqStart] /\
   loop_running (r_cam (run_call true (CStart 0) plc s)) = false.
 Proof. exact (start_cap0 true). Qed.
 Print Assumptions C16_start_cap0.
@@ -203,7 +210,7 @@ Print Assumptions C16_start_cap0.
 Theorem C16_session_example :
   let rs := run true no_failure [COpen; CLoad xml_good; CStart 3; CParams; CStop; CClose] in
   trace_of rs =
-    [CtrlOpen; StrmOpen; GenApiFetch; LoadCtxt true true true;
+    [CtrlOpen; StrmOpen; GenApiFetch; LoadCtxt true true true false;
      EnableStreaming; SetTLParamsLocked true; AcqStart; LoopStart;
      LoopStop; AcqStop; SetTLParamsLocked false; DisableStreaming;
      CtrlClose; StrmClose; ClearCache] /\
@@ -215,7 +222,7 @@ Print Assumptions C16_session_example.
 Theorem C16_failure_example :
   let rs := run true (plan_of [(2%nat, 2%nat, 1)]) [COpen; CLoad xml_good; CStart 3] in
   map r_res rs = [Ok (-1); Ok (-1); Err (E_GENAPI_DEVICE + 1)] /\
-  trace_of rs = [CtrlOpen; StrmOpen; GenApiFetch; LoadCtxt true true true;
+  trace_of rs = [CtrlOpen; StrmOpen; GenApiFetch; LoadCtxt true true true false;
                  EnableStreaming; SetTLParamsLocked true] /\
   loop_running (final rs) = false.
 Proof. exact failure_example. Qed.
@@ -229,3 +236,111 @@ Theorem C16_params_value : forall pl cs plc v,
   v = Z.b2z (tl_locked (final (run true pl cs))).
 Proof. exact (params_value true). Qed.
 Print Assumptions C16_params_value.
+
+(* ---- cached register values are dropped by close ------------------------------------------- *)
+
+(* The bank access in ANY state: it returns a value either by a device read of exactly that slot,
+   when the slot is not cached (the value is the device's current one, and it is cached from then on),
+   or without any device access from the block cached for that slot; it fails only without a context
+   or when the device read fails, and then changes nothing. *)
+Theorem C16_bank_read_call : forall plc s k,
+  let r := run_call true (CBank k) plc s in
+  match r_res r with
+  | Ok v =>
+      (bank_cache s k = None /\ r_effs r = [BankRead k] /\ r_atts r = [BankRead k] /\ v = bank s k /\
+       bank_cache (r_cam r) k = Some v /\ bank (r_cam r) = bank s) \/
+      (bank_cache s k = Some v /\ r_effs r = [] /\ r_atts r = [] /\ r_cam r = s)
+  | Err e =>
+      r_effs r = [] /\ r_cam r = s /\
+      ((ctxt s = None /\ r_atts r = [] /\ e = E_CTXT_MISSING) \/
+       (exists cls, bank_cache s k = None /\ plc 0%nat = Some cls /\ r_atts r = [BankRead k] /\
+                    e = err_of (BankRead k) cls))
+  | Panic => False
+  end.
+Proof. exact (bank_read_call true). Qed.
+Print Assumptions C16_bank_read_call.
+
+(* Cached register values are dropped by close.  For every session  cs1 . close . cs2 . read of bank
+   slot k  under every failure plan (the device's bank memory may change at any point of cs1 / cs2,
+   cs2 may open, load, start, stop, read other slots ...): if that close returned Ok (none of its
+   operations failed) and the read returns a value v, then
+   - if it is the first read of slot k after the close, it is a device access (exactly one device
+     read, of that slot) and v is the device's current value of the slot: nothing cached before the
+     close is served, whatever was cached then and however many other slots were read since;
+   - in general, if the read is served without a device access, then v was obtained by a device read
+     of slot k made AFTER the close (one of the calls of cs2): no read after a clean close returns a
+     value cached before it. *)
+Theorem C16_cache_dropped_on_close : forall pl cs1 cs2 k rs1 rc rs2 r v,
+  run true pl (cs1 ++ CClose :: cs2 ++ [CBank k]) = rs1 ++ rc :: rs2 ++ [r] ->
+  length rs1 = length cs1 ->
+  r_res rc = Ok (-1) ->
+  r_res r = Ok v ->
+  (~ In (CBank k) cs2 ->
+     r_effs r = [BankRead k] /\ r_atts r = [BankRead k] /\
+     v = bank (final (run true pl (cs1 ++ CClose :: cs2))) k) /\
+  (r_effs r = [] ->
+     exists r', In r' rs2 /\ r_effs r' = [BankRead k] /\ r_atts r' = [BankRead k] /\ r_res r' = Ok v).
+Proof. exact cache_dropped_on_close. Qed.
+Print Assumptions C16_cache_dropped_on_close.
+
+(* Non-vacuity: slot 0 is read (7) and cached; close; the device's slots change; open (same context);
+   slot 1 is read; then slot 0 is a device read returning 9, not the 7 cached before the close. *)
+Theorem C16_cache_example :
+  let rs := run true no_failure [COpen; CLoad xml_good; CPoke 0 7; CBank 0; CBank 0; CClose;
+                                 CPoke 0 9; CPoke 1 8; COpen; CBank 1; CBank 0; CBank 0] in
+  map r_res rs = [Ok (-1); Ok (-1); Ok (-1); Ok 7; Ok 7; Ok (-1); Ok (-1); Ok (-1); Ok (-1); Ok 8; Ok 9; Ok 9] /\
+  map r_effs (skipn 8 rs) = [[CtrlOpen; StrmOpen]; [BankRead 1]; [BankRead 0]; []] /\
+  map r_effs (firstn 5 (skipn 2 rs)) = [[BankPoke 0 7]; [BankRead 0]; []; [CtrlClose; StrmClose; ClearCache]; [BankPoke 0 9]].
+Proof. exact cache_example. Qed.
+Print Assumptions C16_cache_example.
+
+(* ---- TLParamsLocked declared with <pValue> and <pValueCopy> --------------------------------- *)
+
+(* In every session under every failure plan: a call in which the write of the mirror register (the
+   <pValueCopy> of TLParamsLocked) failed with a fault of class cls returns that error with that class;
+   the failed write is the last operation it attempted; it is start_streaming having done exactly
+   EnableStreaming and the <pValue> write (no AcquisitionStart, no receive loop), or stop_streaming /
+   close having done exactly LoopStop, AcquisitionStop and the <pValue> write (no DisableStreaming, no
+   channel closed, no cache cleared); no loop is running afterwards. *)
+Theorem C16_copy_failure_stops : forall pl cs r b cls,
+  In r (run true pl cs) -> r_failed r = Some (CopyTL b, cls) ->
+  r_res r = Err (E_GENAPI_DEVICE + cls) /\
+  r_atts r = r_effs r ++ [CopyTL b] /\
+  loop_running (r_cam r) = false /\
+  ((b = true /\ r_effs r = [EnableStreaming; SetTLParamsLocked true]) \/
+   (b = false /\ r_effs r = [LoopStop; AcqStop; SetTLParamsLocked false])) /\
+  exists k j, pl k j = Some cls /\ r_nops r = S j.
+Proof. exact (copy_failure_stops true). Qed.
+Print Assumptions C16_copy_failure_stops.
+
+(* Non-vacuity: the description with the mirror, failure-free (the mirror is written right after the
+   <pValue> register, before AcquisitionStart / before DisableStreaming) and with the mirror write of
+   start, resp. of stop, failing with a Timeout. *)
+Theorem C16_copy_example :
+  let cs := [COpen; CLoad xml_copy; CStart 3; CStop; CClose] in
+  trace_of (run true no_failure cs) =
+    [CtrlOpen; StrmOpen; GenApiFetch; LoadCtxt true true true true;
+     EnableStreaming; SetTLParamsLocked true; CopyTL true; AcqStart; LoopStart;
+     LoopStop; AcqStop; SetTLParamsLocked false; CopyTL false; DisableStreaming;
+     CtrlClose; StrmClose; ClearCache] /\
+  clean (final (run true no_failure cs)) /\ tl_copy (final (run true no_failure cs)) = false /\
+  (let rs := run true (plan_of [(2%nat, 2%nat, 1)]) cs in
+   map r_res rs = [Ok (-1); Ok (-1); Err (E_GENAPI_DEVICE + 1); Ok (-1); Ok (-1)] /\
+   map r_atts rs = [[CtrlOpen; StrmOpen]; [GenApiFetch]; [EnableStreaming; SetTLParamsLocked true; CopyTL true];
+                    []; [CtrlClose; StrmClose]]) /\
+  (let rs := run true (plan_of [(3%nat, 3%nat, 1)]) cs in
+   map r_res rs = [Ok (-1); Ok (-1); Ok (-1); Err (E_GENAPI_DEVICE + 1); Ok (-1)] /\
+   nth 3 (map r_atts rs) [] = [LoopStop; AcqStop; SetTLParamsLocked false; CopyTL false] /\
+   stream_enabled (final rs) = true /\ tl_copy (final rs) = true).
+Proof. exact copy_example. Qed.
+Print Assumptions C16_copy_example.
+
+(* Clean close with the mirror: under the hypotheses of C16_close_clean, when every description
+   loaded in the session declares the <pValueCopy>, the mirror register of TLParamsLocked is 0 after
+   close as well (with descriptions that differ in this respect loaded in one session the mirror may
+   stay set: stop_streaming writes what the description loaded at that moment declares). *)
+Theorem C16_close_clean_copy : forall pl cs,
+  (forall i j, pl i j = None) -> Forall good_call cs -> Forall copy_call cs ->
+  tl_copy (final (run true pl (cs ++ [CClose]))) = false.
+Proof. exact close_clean_copy. Qed.
+Print Assumptions C16_close_clean_copy.
